@@ -237,15 +237,16 @@ func (e *enumerator) programs(n int) [][]*stmt {
 }
 
 type semProg struct {
-	ID     int
-	Rsize  int
-	Size   int
-	Alpha  string
-	Source string
-	Expect string // accepted | rejected (whole class the compiler refuses)
-	Mpm    bool   // multi-processor program: compiled with -mpm (channel family)
-	dir    string
-	src    string
+	ID           int
+	Rsize        int
+	Size         int
+	Alpha        string
+	Source       string
+	Expect       string // accepted | rejected (whole class the compiler refuses)
+	Mpm          bool   // multi-processor program: compiled with -mpm (channel family)
+	Compilations int    // channel family: independent compilations of the program
+	dir          string
+	src          string
 }
 
 const inputValue = 0x5A
@@ -928,23 +929,24 @@ func (w *execWorker) request(rq execReq) hdlResult {
 // ------------------------------------------------------------------ driver
 
 type semOutcome struct {
-	Prog         *semProg
-	Class        string // ok | rejected | mismatch | ... (see part2)
-	Detail       string
-	Expected     map[int][]uint64
-	Got          map[int][]uint64
-	Asm          string
-	Log          string
-	Extra        *semOutcome // a second failure of the same program (channel family)
-	Compiled     *compiled   // compile-deadlock-in-every-schedule: the proof data
-	Artefact     string      // artefacts-differ-between-two-compilations: which kind
-	ExpectedMP   map[int][]uint64
-	GotMP        map[int][]uint64
-	HDLNote      string
-	Misfit       string   // assembly-not-runnable "operand does not fit": which operand kind
-	Missing      []string // opcodes used by the emitted assembly but absent from the requested machine
-	Machine      string   // machine-mismatch: opcode whose hardware diverges from the ISA model
-	ISADisagrees bool
+	Prog          *semProg
+	Class         string // ok | rejected | mismatch | ... (see part2)
+	Detail        string
+	Expected      map[int][]uint64
+	Got           map[int][]uint64
+	Asm           string
+	Log           string
+	WiringSuspect bool        // channel family: the compilations of the program also differ in their artefacts
+	Extra         *semOutcome // a second failure of the same program (channel family)
+	Compiled      *compiled   // compile-deadlock-in-every-schedule: the proof data
+	Artefact      string      // artefacts-differ-between-two-compilations: which kind
+	ExpectedMP    map[int][]uint64
+	GotMP         map[int][]uint64
+	HDLNote       string
+	Misfit        string   // assembly-not-runnable "operand does not fit": which operand kind
+	Missing       []string // opcodes used by the emitted assembly but absent from the requested machine
+	Machine       string   // machine-mismatch: opcode whose hardware diverges from the ISA model
+	ISADisagrees  bool
 }
 
 // features lists the constructs a program uses (go/ast walk of main); used to group failures.
@@ -1255,14 +1257,15 @@ func part2(run *vlib.Run, bt *built) bool {
 	type batch struct {
 		lo, hi, rsize int
 		mpm           bool
+		ncomp         int
 	}
 	var batches []batch
 	for lo := 0; lo < len(progs); {
 		hi := lo
-		for hi < len(progs) && hi-lo < batchSize && progs[hi].Rsize == progs[lo].Rsize && progs[hi].Mpm == progs[lo].Mpm {
+		for hi < len(progs) && hi-lo < batchSize && progs[hi].Rsize == progs[lo].Rsize && progs[hi].Mpm == progs[lo].Mpm && progs[hi].Compilations == progs[lo].Compilations {
 			hi++
 		}
-		batches = append(batches, batch{lo, hi, progs[lo].Rsize, progs[lo].Mpm})
+		batches = append(batches, batch{lo, hi, progs[lo].Rsize, progs[lo].Mpm, progs[lo].Compilations})
 		lo = hi
 	}
 	outcomes := make([]*semOutcome, len(progs))
@@ -1300,7 +1303,7 @@ func part2(run *vlib.Run, bt *built) bool {
 				rs, err := compileBatch(bt, ps, b.rsize, b.mpm, fmt.Sprint(b.lo), "")
 				rsAll := [][]compiled{rs}
 				if b.mpm { // channel family: further independent compilations
-					for k := 1; k < chanCompilations && err == nil; k++ {
+					for k := 1; k < b.ncomp && err == nil; k++ {
 						var rk []compiled
 						rk, err = compileBatch(bt, ps, b.rsize, b.mpm, fmt.Sprint(b.lo), chanDirSuffix(k))
 						rsAll = append(rsAll, rk)
@@ -1328,7 +1331,7 @@ func part2(run *vlib.Run, bt *built) bool {
 							cs = append(cs, rk[i])
 						}
 						oc = judgeChannel(xw, p, cs)
-						for k := 1; k < chanCompilations; k++ {
+						for k := 1; k < b.ncomp; k++ {
 							os.RemoveAll(p.dir + chanDirSuffix(k))
 						}
 					} else {
@@ -1402,6 +1405,7 @@ func part2(run *vlib.Run, bt *built) bool {
 	}
 	run.Set("part2_channel_family_oracles", fmt.Sprintf("(1) termination: every program is compiled under the gosched scheduler; a program all of whose explored compiler schedules (preemption bound 2, cap 600 runs) end with an empty enabled set is a proven hang and is re-run in a fresh process before it is reported; (2) %d independent compilations (separate processes, same compiler schedule) must emit identical assembly files and bondmachine JSON; (3) hardware execution is NOT available for this family: %d of %d generated multi-processor file sets elaborate under vsim (first diagnostic: %s; generator defects of chw/wrd/wwr and of the channel shared object, property C18); instead the emitted assembly of all processors is run on a multi-processor ISA model (rendezvous channels wired by Shared_links of the saved bondmachine, output ids from the requirements dump) and compared with a small-step go/ast reference evaluator with Go channel semantics, both run to quiescence (a BondMachine processor does not stop when main returns); every distinct compilation variant is checked", chanCompilations, chElab, chN, chNote))
 	run.Set("part2_channel_family", "uint8 (thorough: also uint16): {receive in a goroutine, in main, in an ordinary function} x {send in main, in an ordinary function, in a goroutine} (both ends in main excluded) x {no alias, c2 = c used by the sender, c2 = c used by the receiver}; pipeline main -> relay goroutine -> worker (2 channels, 2 goroutines); two independent channel/worker pairs; two messages on one channel; goroutine -> goroutine -> main; channel declared in a nested block; ordinary functions on two channels; make(chan T) (refused by the compiler: expected); thorough: the first four extras also with an aliased sender")
+	run.Set("part2_channel_expression_order_family", "producer goroutine sending 1,2,3,4 on one channel (prod) or 1,5,2,10 alternately on two channels a,b (prodtwo); main: v = 7; x = L op R; IOWrite(o0, x); x = L op R; IOWrite(o0, x) for all ordered pairs (L,R) of the operand forms {<-C, <-C*3, <-C+1, (<-C), take(C), 2, v} (two channels: L over a, R over b, L must communicate); op + : all pairs; op * : quick the pairs over {<-C, <-C*3, take(C), v}, thorough all pairs; uint8 (thorough also uint16); 2 compilations each; oracle: multi-processor ISA model vs go/ast evaluator performing the communications of an expression left to right, and termination; parenthesised operands are outside the compiler's subset (no ParenExpr in Expr_eval): rejected-as-expected")
 	run.Set("part2_storage_reuse_family", "1..2 outer memory variables; sibling constructs declaring k memory locals each (every local assigned a distinct constant and written to the output inside its block), outer variables written after them; two siblings, all (k1,k2) in 0..3: bare/bare, if reg_t == 1 {k1} else {k2}, bare block then k2 top level declarations (thorough: also if reg_t == 0, uint16); thorough: three siblings, all (k1,k2,k3) in 0..3: bare/bare/bare, if-else + bare, bare + if-else, bare/bare + declarations, uint8 and uint16")
 	run.Set("part2_shadowing_family", "block scoping: outer variable V (a = memory, reg_b = register), block kinds {bare, if body, else body, for body} x {redeclares V, does not} x PRE {V = 5 (thorough: also none)} x INNER = all sequences of 1..2 statements of {V = 1, V = V + 2, V++, IOWrite(o0, V)} x POST {IOWrite; V++ IOWrite (thorough: also V = V + 2 IOWrite; IOWrite V = 1 IOWrite)} (quick: the non-redeclaring control only for the bare block); two levels: block {[var V] s1 {[var V] s2 IOWrite} IOWrite} IOWrite with s1 in {V = 1, V++}, s2 in {V = 3, V = V + 2, V++}, all four redeclaration combinations (quick: outer block bare; thorough: all four kinds); 16 bit: bare and for body, redeclared, one inner statement")
 	run.Set("part2_bounds", "all canonical programs (last statement writes an output; no assignment that is immediately overwritten) with exactly `size` statements (nested ones counted) over the named statement alphabet: variables a (memory) and reg_b (register) of type uintN, assignments of constants / the other variable / + / * / bondgo.IORead / a function call, ++/--, bondgo.IOWrite to one or two outputs, if / if-else with == conditions, two bounded for loops; plus one program per binary operator the compiler refuses (- & | ^ / <<)")
@@ -1679,7 +1683,7 @@ func reportSemFailures(run *vlib.Run, bt *built, failing []*semOutcome) {
 			add("C12|compiler|output-differs-between-identical-compilations|"+oc.Artefact, "independent compilations of the same program (same compiler schedule) emit different artefacts", oc)
 			continue
 		case "codegen-mismatch":
-			if isChannelProgram(oc.Prog.Source) && !has("channel-to-channel-assignment") && strings.Count(oc.Prog.Source[strings.Index(oc.Prog.Source, "func main()"):], " chan ") >= 2 {
+			if oc.WiringSuspect && isChannelProgram(oc.Prog.Source) && !has("channel-to-channel-assignment") && strings.Count(oc.Prog.Source[strings.Index(oc.Prog.Source, "func main()"):], " chan ") >= 2 {
 				add("C12|codegen|mismatch|processor-on-two-channels-wired-in-map-order", "a processor connected to two channels gets them wired to its local channel indexes in map iteration order: the emitted assembly talks to the wrong channel in some compilations", oc)
 				continue
 			}
